@@ -10,7 +10,7 @@ ASSUMPTIONS = TRUSTED_BASE + [
     "per shape (E2, npart 1..3, all real values): the real _reverse_velocities of CP2K / TurtleMD / LAMMPS / GROMACS with file readers and writers replaced by recording stubs writes, to the requested output file, exactly what it read from the "
     "requested input except that every velocity component is negated (positions, box, atom names / ids kept). ASE's variant goes through ase.io and is covered by the bounded round trip only",
     "proved (E1, any number of frames): _extract_frame of CP2K and TurtleMD writes exactly frame idx of the trajectory (read_xyz_file yields frame k as its k-th snapshot: reader contract; convert_snapshot splits one snapshot), once, overwriting the output; "
-    "LAMMPS' variant is the two-line read_lammpstrj(traj, idx, n) -> write_lammpstrj data flow covered by the bounded round trip",
+    "LAMMPS' two-line variant (read_lammpstrj(traj, idx, n_atoms) -> write_lammpstrj unchanged) by the E2 data-flow job",
     "ONLY swap_integer / swap_endian and the data flow above are decided deductively. Everything that goes through decimal text ({:15.9f}, astype(str), float()) or regular expressions is a BOUNDED stand-in: the real writer/reader pairs are run "
     "natively over a grid (atom counts 1..4 (>=2 for LAMMPS), magnitudes within the format width, id permutations, 3/9-component boxes, frame indices, both TRR byte orders and precisions, template key sets) and compared with "
     "the written values to the written precision",
@@ -180,6 +180,42 @@ def _reverse_velocities_dataflow(tier):
                     goals.append((f"box_unchanged", tz(rec["box"][k]) == tz(box[k])))
             return goals
         return run
+
+    # LAMMPS _extract_frame: frame idx of the trajectory, read with the engine's atom count, is written unchanged to the output
+    def lmp_extract(npart):
+        def run(ex):
+            import infretis.classes.engines.lammps as mod
+            rec = {}
+            xyz, vel, box = sym_array("x", (npart, 3)), sym_array("v", (npart, 3)), sym_array("box", (3,))
+            idt = np.array([[i + 1, 1] for i in range(npart)])
+            e = object.__new__(mod.LAMMPSEngine)
+            e.n_atoms = npart
+            s_r, s_w = mod.read_lammpstrj, mod.write_lammpstrj
+            mod.read_lammpstrj = lambda fn, frame, n: (rec.update(read=fn, frame=frame, n=n) or (idt.copy(), xyz.copy(), vel.copy(), box.copy()))
+            mod.write_lammpstrj = lambda fn, it, pos, v, bx, append=False: rec.update(out=fn, names=it, pos=pos, vel=v, box=bx)
+            try:
+                e._extract_frame("TRAJ", 7, "OUT")
+            finally:
+                mod.read_lammpstrj, mod.write_lammpstrj = s_r, s_w
+            goals = [("reads_frame_idx_of_the_trajectory_with_the_engines_atom_count", z3.BoolVal(rec.get("read") == "TRAJ" and rec.get("frame") == 7 and rec.get("n") == npart)),
+                     ("writes_to_the_requested_output", z3.BoolVal(rec.get("out") == "OUT")), ("identities_kept", z3.BoolVal(np.array_equal(rec.get("names"), idt)))]
+            for i in range(npart):
+                for k in range(3):
+                    goals.append(("positions_unchanged", tz(rec["pos"][i, k]) == tz(xyz[i, k])))
+                    goals.append(("velocities_unchanged", tz(rec["vel"][i, k]) == tz(vel[i, k])))
+            for k in range(3):
+                goals.append(("box_unchanged", tz(rec["box"][k]) == tz(box[k])))
+            return goals
+        return run
+    res_x = {}
+    for npart in (1, 2, 3):
+        for ex, goals in explore(lmp_extract(npart), max_paths=4):
+            for gname, g in goals:
+                r, _ = prove(ex.pc, g, timeout_ms=10000)
+                res_x[gname] = r if res_x.get(gname, "unsat") == "unsat" else res_x[gname]
+    for gname, r in res_x.items():
+        obs.append({"name": f"extract_frame_lammps/{gname}", "result": r if r in ("unsat", "sat") else "unknown", "label": "proved-per-shape", "backend": "z3-" + z3.get_version_string(),
+                    "time_s": round(time.time() - t0, 2), "engine": "E2", "solver_output": None if r == "unsat" else str(r), "witness": None if r == "unsat" else {"engine": "lammps", "goal": gname}})
 
     for engine in ("cp2k", "turtlemd", "lammps", "gromacs"):
         results, npaths = {}, 0
